@@ -62,6 +62,9 @@ def battery():
         dict(metrics=["orders.total"], dimensions=["lines.kind"]),                                           # fan-out onto the composite-keyed child
         dict(metrics=["products.total", "products.n"], dimensions=["shelves.kind"], filters=["lines.kind = 'x'"]),
         dict(metrics=["lines.uniq"], dimensions=["lines.kind"]),
+        # ONE filter string that names several models the rest of the query does not mention: their join order comes from the filter text alone
+        dict(metrics=["orders.total"], dimensions=[], filters=["customers.status = 'a' AND items.kind = 'z' AND stores.kind = 'k' AND returns.status = 'r'"]),
+        dict(metrics=["orders.n"], dimensions=["orders.kind"], filters=["regions.kind = 'n' AND returns.kind = 'x' AND items.status = 'o' AND customers.kind = 'c' AND stores.status = 's'"]),
     ]
     return layer, queries
 
